@@ -533,6 +533,21 @@ def F27():
         return f"valid archive with a folder-level CRC on a two-member folder raises {type(e).__name__}{e.args}"
 
 
+@case
+def F28():
+    d = tmp(); p = os.path.join(d, "a.7z")
+    mk(p, [("one.txt", b"hello" * 20)])
+    os.mkdir(os.path.join(d, "emptydir"))
+    try:
+        with py7zr.SevenZipFile(p, "a") as z:
+            z.write(os.path.join(d, "emptydir"), "emptydir")
+        with py7zr.SevenZipFile(p) as z:
+            names = z.getnames()
+        return None if names == ["one.txt", "emptydir"] else f"append of a directory only: archive lists {names}"
+    except Exception as e:
+        return f"appending only a directory to a non-solid archive: close() raises {type(e).__name__}: {e} (the old header is already overwritten)"
+
+
 if __name__ == "__main__":
     ids = sys.argv[1:]
     if ids == ["all"] or not ids:
